@@ -27,6 +27,9 @@ fn one<const K: usize>(rng: &mut Rng, thorough: bool) -> String {
     enc::tree_usize(&mut out, &t, true);
     write!(out, " {} {} ", ["dfs", "edge", "bfs"][kind], start).unwrap();
     enc::nats(&mut out, &sk);
+    // skip_subtree before the first item (node traversals only: nothing has been returned yet, so nothing is skipped)
+    let pre = if kind != 1 && rng.chance(1, 6) { 1 + rng.below(2) } else { 0 };
+    write!(out, " {}", pre).unwrap();
     out.push_str(" | ");
     // run
     let mut rows: Vec<String> = Vec::new();
@@ -34,6 +37,9 @@ fn one<const K: usize>(rng: &mut Rng, thorough: bool) -> String {
     macro_rules! drive {
         ($trav:expr, $fmt:expr) => {{
             let mut tr = $trav;
+            for _ in 0..pre {
+                tr.skip_subtree();
+            }
             let h = tr.size_hint();
             hint0 = (h.0, h.1.unwrap_or(usize::MAX));
             let mut k = 0;
